@@ -245,6 +245,15 @@ static void ros_oracle(const RosCase& cs, const mocks::Shared& sh, const micm::S
         out.tok(below ? "ORACLE_CONVERGED_BEFORE_END_OF_INTERVAL:remainder_below_round_off" : "ORACLE_CONVERGED_BEFORE_END_OF_INTERVAL");
     }
   }
+  // ---- C10: the first attempt whose error norm is NaN / Inf ends the Solve with that status ----
+  for (std::size_t k = 0; k < errs.size(); ++k)
+    if (!std::isfinite(errs[k]))
+    {
+      const bool reported = std::isnan(errs[k]) ? r.state_ == micm::SolverState::NaNDetected : r.state_ == micm::SolverState::InfDetected;
+      if (!reported || k + 1 != errs.size())
+        out.tok("ORACLE_CONVERGED_WITH_NONFINITE:error_norm_not_reported");
+      break;
+    }
   // accepted attempts and their H
   bool all_h = true;
   for (double h : Hs)
@@ -310,7 +319,7 @@ static void ros_oracle(const RosCase& cs, const mocks::Shared& sh, const micm::S
     }
     if (acc != r.stats_.accepted_)
       out.tok("ORACLE_ACCEPT_IFF_ERROR_BELOW_ONE_OR_H_BELOW_HMIN");
-    if (std::fabs(t - r.final_time_) > 1e-9 * std::max(t, r.final_time_))
+    if (std::fabs(t - r.final_time_) > 1e-9 * std::max<double>(t, (double)r.final_time_))
       out.tok("ORACLE_FINAL_TIME_NOT_SUM_OF_ACCEPTED_STEPS");
   }
 }
@@ -630,6 +639,10 @@ static void be_case(Toks& tk, Out& out, std::size_t ncells, std::size_t nspec)
     out.tok("ORACLE_FINAL_TIME_OUT_OF_RANGE");
   if (result.state_ == micm::SolverState::Converged && result.final_time_ != time_step)
     out.tok("ORACLE_CONVERGED_BEFORE_END_OF_INTERVAL");
+  // backward Euler always advances on a positive time step (an unconverged step is accepted once the reductions are
+  // used up): a call that returns with no time integrated would make the documented continuation loop spin for ever
+  if (time_step > 0.0 && !(result.final_time_ > 0.0))
+    out.tok("ORACLE_NO_PROGRESS_ON_A_POSITIVE_TIME_STEP");
   for (std::size_t c = 0; c < ncells; ++c)
     for (std::size_t s = 0; s < nspec; ++s)
       if (state.variables_[c][s] < 0.0)
@@ -673,10 +686,13 @@ static DM storage_matrix(std::size_t nrow, std::size_t ncol, double pad, const s
   return m;
 }
 
+// What NormalizedError / IsConverged read of a State, with the scratch object a real State carries (so that a version of
+// the routines that keeps something there still compiles and is observed)
 struct FakeState
 {
   std::vector<double> absolute_tolerance_;
   double relative_tolerance_;
+  std::unique_ptr<micm::TemporaryVariables> temporary_variables_;
 };
 
 template<class DM>
@@ -690,6 +706,24 @@ static void nerr_case(Toks& tk, Out& out, std::size_t ncells, std::size_t nspec,
      ER = storage_matrix<DM>(ncells, nspec, pad, er);
   int dummy = 0;
   micm::RosenbrockSolver<int, int> solver(1, 2, dummy, nspec);
+  {
+    micm::StateParameters sp;
+    sp.number_of_grid_cells_ = ncells;
+    sp.number_of_species_ = nspec;
+    st.temporary_variables_ = std::make_unique<micm::RosenbrockTemporaryVariables<DM>>(sp, micm::RosenbrockSolverParameters::ThreeStageRosenbrockParameters());
+  }
+  {
+    // an earlier evaluation on the same State with other tolerances must leave no trace (tolerances can be reset
+    // between solves)
+    auto real_atol = st.absolute_tolerance_;
+    double real_rtol = st.relative_tolerance_;
+    for (auto& a : st.absolute_tolerance_)
+      a = a * 4.0 + 1.0;
+    st.relative_tolerance_ = real_rtol * 2.0 + 0.5;
+    (void)solver.NormalizedError(Y, YN, ER, st);
+    st.absolute_tolerance_ = real_atol;
+    st.relative_tolerance_ = real_rtol;
+  }
   double e = solver.NormalizedError(Y, YN, ER, st);
   out.q(e);
   // oracle: RMS over real cells and species of err / (atol_s + rtol * max(|y|, |ynew|)), floor 1e-10
